@@ -278,7 +278,40 @@ func genC20(rng *rand.Rand, n int, thorough bool, emit func(string)) {
 	}
 }
 
+// genC01X: exhaustive small scope (thorough tier only) — every string of up to 6 symbols over a small
+// alphabet of macros, each delivered whole, byte-wise and with every single cut point, ended by EOF and by an
+// error, through Read. n and the PRNG are ignored: the space is enumerated completely.
+func genC01X(rng *rand.Rand, n int, thorough bool, emit func(string)) {
+	syms := []string{"\n", "\r", ":", " ", "data", "id", "x"}
+	var rec func(prefix string, depth int)
+	emitAll := func(s string) {
+		b := []byte(s)
+		for _, endErr := range []bool{false, true} {
+			emit(parseCaseLine(false, endErr, false, "-", "-", [][]byte{b}))
+			if len(b) > 1 {
+				emit(parseCaseLine(false, endErr, false, "-", "-", splitRandom(rng, b, 1)))
+				for c := 1; c < len(b); c++ {
+					emit(parseCaseLine(true, endErr, false, "-", "-", [][]byte{b[:c], b[c:]}))
+				}
+			}
+		}
+	}
+	rec = func(prefix string, depth int) {
+		emitAll(prefix)
+		if depth == 0 {
+			return
+		}
+		for _, s := range syms {
+			rec(prefix+s, depth-1)
+		}
+	}
+	for _, s := range syms {
+		rec(s, 4)
+	}
+}
+
 func init() {
 	generators["C01"] = genC01
 	generators["C20"] = genC20
+	generators["C01X"] = genC01X
 }
